@@ -1,6 +1,6 @@
 """Which units decide which property (DESIGN.md sections 1, 5)."""
 
-VERUS_UNITS = ['U-FMT', 'U-REACH', 'U-COMPACTAS', 'U-SANITY', 'U-RESOLVE', 'U-CONTAINS', 'U-CALLS', 'U-DESCR']
+VERUS_UNITS = ['U-FMT', 'U-REACH', 'U-COMPACTAS', 'U-SANITY', 'U-RESOLVE', 'U-CONTAINS', 'U-CALLS', 'U-DESCR', 'U-DERIVES']
 
 PROPS = {
     'C15': {
@@ -21,7 +21,7 @@ PROPS = {
     },
     'C08': {
         'level': 'proof',
-        'verus': ['U-REACH', 'U-COMPACTAS'],
+        'verus': ['U-REACH', 'U-COMPACTAS', 'U-DERIVES'],
         'kani': ['uint_predicate_table', 'compact_as_unnamed_upto3'],
         'trusted_base': ['Verus 0.2026.09.13, Z3, rustc 1.98.1'],
         'assumptions': [
@@ -29,9 +29,8 @@ PROPS = {
         ],
         'not_covered': [
             'merging the id sets into the path-keyed derive map (flatten_recursive_derives lines 94-143: syn + HashMap)',
-            'resolution default + specific by path (FlatDerivesRegistry::resolve)',
             'derive/attribute token emission (Derives::to_tokens)',
-            'that create_type_ir / upcast_composite call the CompactAs predicate and insert the configured path',
+            'that create_type_ir calls the CompactAs predicate and resolve (upcast_composite, resolve, add_as_compact_derive are under contract; create_type_ir reaches syn)',
         ],
     },
     'C10': {
@@ -92,6 +91,19 @@ PROPS = {
         'not_covered': [
             'the validation loop (validate_substitutes_and_derives_against_registry lines 16-72: keys are syn::Path, accumulators are Vec<(syn::Path, HashSet<..>)>)',
             'similar_type_paths_in_registry (syn::Path in and out)',
+        ],
+    },
+    'C18': {
+        'level': 'proof',
+        'verus': ['U-DERIVES'],
+        'kani': [],
+        'trusted_base': ['Verus 0.2026.09.13, Z3, rustc 1.98.1'],
+        'assumptions': [
+            'ASSUMED std contracts: HashSet / HashMap over opaque syn keys as mathematical set / map; parse_quote!(#path) yields the same path; derived Clone is structural',
+        ],
+        'not_covered': [
+            'the first sentence of C18 (wire-faithful shape of the field list): create_composite_ir_kind and struct token emission reach syn / proc_macro2',
+            'token emission of the derives and attributes (Derives::to_tokens)',
         ],
     },
 }
